@@ -113,6 +113,7 @@ def r_visit(P, R):
         pick_first(P, R)
         count_refusal(P, R)
         count_compaction(P, R)
+        count_scaling(P, R)
         minterm_bits(P, R)
     if R.prop in ('C18', 'C06'):
         descendants_root(P, R)
@@ -973,3 +974,60 @@ def quant_vars(P, R):
 def r_quant_vars(P, R):
     quant_vars(P, R)
 r_quant_vars.NAME = 'R-ARGS(quantified variables)'
+
+
+def count_scaling(P, R):
+    """`_sat_len` counts the models below the root level; count() owes the
+    factor 2**(compact level of the root) for the levels above it - also
+    when the root is a terminal (its compact level is n, the factor
+    2**n).  Every value that count() returns must carry that factor."""
+    f = P.func('dd.bdd.BDD.count')
+    fn = f.node
+    raw = set()          # names bound to the un-scaled result of _sat_len
+    for s in au.walk_no_defs(fn):
+        if isinstance(s, ast.Assign) and isinstance(
+                s.value, ast.Call) and au.call_name(
+                    s.value) == '_sat_len' and isinstance(
+                        s.targets[0], ast.Name):
+            raw.add(s.targets[0].id)
+    if not raw:
+        R.undecided('R-VISIT', f.qualname, 'final scaling',
+                    'no call of _sat_len bound to a name')
+        return
+    scaled = set()
+    for s in sorted((x for x in au.walk_no_defs(fn)
+                     if isinstance(x, ast.Assign)), key=lambda x: x.lineno):
+        v = s.value
+        if isinstance(s.targets[0], ast.Name) and isinstance(
+                v, ast.BinOp) and isinstance(v.op, (ast.Mult, ast.LShift)):
+            sides = (v.left, v.right)
+            has_raw = any(isinstance(x, ast.Name) and x.id in raw
+                          for x in sides)
+            has_pow = any(isinstance(x, ast.BinOp) and isinstance(
+                x.op, ast.Pow) and au.const_int(x.left) == 2
+                for x in sides) or isinstance(v.op, ast.LShift)
+            if has_raw and has_pow:
+                scaled.add(s.targets[0].id)
+    n = 0
+    for r in au.walk_no_defs(fn):
+        if not isinstance(r, ast.Return) or r.value is None:
+            continue
+        n += 1
+        names = {x.id for x in ast.walk(r.value) if isinstance(x, ast.Name)}
+        if names & raw and not (names & scaled) and not any(
+                isinstance(x, ast.BinOp) and isinstance(x.op, ast.Pow)
+                for x in ast.walk(r.value)):
+            R.violation(
+                'R-VISIT', 'scaling-skipped', f.qualname,
+                au.short(r, 40),
+                f'`{au.short(r, 60)}` returns the result of _sat_len '
+                'without the factor 2**(level of the root): the levels '
+                'above the root (all n of them for a constant) are not '
+                'counted', unit=f.unit.rel, line=r.lineno)
+    if n and scaled:
+        R.holds('R-VISIT', f.qualname,
+                f'{n} return(s): the result of _sat_len is scaled by '
+                '2**(compact level of the root)')
+    elif not scaled:
+        R.undecided('R-VISIT', f.qualname, 'final scaling',
+                    'no product of the _sat_len result with a power of 2')
